@@ -1,6 +1,7 @@
 import python_minifier.ast_compat as ast
 
 from python_minifier.transforms.suite_transformer import SuiteTransformer
+from python_minifier.util import is_constant_node
 
 
 class RemoveAsserts(SuiteTransformer):
@@ -21,5 +22,9 @@ class RemoveAsserts(SuiteTransformer):
                 return []
             else:
                 return [self.add_child(ast.Expr(value=ast.Num(0)), parent=parent)]
+
+        if isinstance(node_list[0], ast.Assert) and isinstance(without_assert[0], ast.Expr) and is_constant_node(without_assert[0].value, ast.Str):
+            # Without the assert statements in front of it, this string would become a docstring
+            without_assert.insert(0, self.add_child(ast.Expr(value=ast.Num(0)), parent=parent))
 
         return without_assert
